@@ -26,10 +26,18 @@ CLAIMED = {
    text="TLC enumerates every input description (20 class kinds x element-shape sequences up to the bound), checks the implementation-shaped model against the reference outside the one listed deviation, and emits each case; the harness materialises each one as a real object, runs the real functions twice (strategy memo cold and warm, both class orders) and TLC validates every observation against ItemsRef/ValuesRef.",
    ref="DESIGN.md section 4 C18",
    note="Trusted: TLC; the tagging projection of yielded items; bounded to length 3 (quick) / 4 (thorough); 2-character-string elements unasserted."),
+ "C10": dict(
+   engine="Binding",
+   technique="TLA+ spec Binding.tla (Python call binding BindRef vs transcribed _get_binding + 32-row matrix + 17 binders), exhaustive TLC over signatures x call shapes; every emitted (signature, call) executed through bind()/wrap() on generated callables, validated by TLC trace spec Binding_Trace.tla",
+   level="model_checking",
+   text="TLC checks for every legal signature of up to 4 (thorough: 5) parameters and every call shape that the transcribed binder selected by the matrix converts each argument with the unmarshaller of the parameter Python binds it to (and shows the pinned table violating this). Each emitted (signature, call) is then materialised as a real function / method / callable instance / class / factory closure whose parameters are annotated with distinct Enum classes, called through bind() and wrap(), and TLC validates every observation (landing parameter, converting class, TypeError on rejected calls, wrap metadata) against BindRef; BindRef's acceptance is audited against real Python calls.",
+   ref="DESIGN.md section 4 C10",
+   note="Trusted: TLC; the Enum-per-parameter trick identifying the converter; quick replays <=3-parameter signatures (unannotated variants <=2), thorough adds all 4-parameter signatures."),
 }
 NOT_BUILT = "check not built yet (build in progress; see DESIGN.md section 7 build order)"
 
 ENGINES = {
+ "Binding": dict(path="spec/Binding.tla", kind="TLA+ spec + TLC (exhaustive, table synthesis Binding_Synth.tla, case emission, trace validation) + harness/drivers/c10.py"),
  "Union": dict(path="spec/Union.tla", kind="TLA+ spec + TLC (exhaustive, trace validation) + harness/drivers/c08.py"),
  "Iter": dict(path="spec/Iter.tla", kind="TLA+ spec + TLC (exhaustive, case emission, trace validation) + harness/drivers/c18.py"),
  "Context": dict(path="spec/Context.tla", kind="TLA+ spec + TLC (exhaustive, emit, trace validation) + Python replay harness harness/drivers/c16.py"),
